@@ -267,6 +267,9 @@ def segment_rules(chk, repo):
 def run(chk, repo, tier):
     from .common import no_hidden_state
     no_hidden_state(chk, repo, 'C20')
+    chk.clause('C20-o', 'the geometry helpers leave their arguments untouched', 10)
+    from .common import operands_untouched
+    operands_untouched(chk, repo, 'C20-o', ['util.pad', 'util.boundary', 'util.centroid', 'util.rebin', 'util.rescale', 'helper.boundary_slice', 'helper.slice_offset', 'helper.mesh', 'shape.circle', 'shape.hexagon', 'shape.rectangle', 'shape.spider'], allow=[])
     chk.clause('C20-a', 'pad keeps the origin sample at the new origin on every path; copied extents equal', 8)
     chk.clause('C20-b', 'cubes: every bound on image axis k derives from array.shape[k+1] and shape[k]', 2)
     chk.clause('C20-d', 'subarray, slice_offset, mesh and boundary_slice agree with array_extent', 9)
